@@ -3,6 +3,7 @@ import RedoModel.Paths
 import RedoModel.DoFiles
 import RedoModel.LogRec
 import RedoModel.Commit
+import RedoModel.Makeflags
 import RedoModel.DepsWire
 import RedoModel.CoreWire
 import RedoModel.TokensWire
@@ -131,6 +132,14 @@ def respond (line : String) : String :=
   | ["locks-replay", evs] => LocksWire.respond evs
   | ["once-replay", evs] => OnceWire.respond evs
   | ["waits-replay", reach, evs] => WaitsWire.respond reach evs
+  | ["makeflags", x] =>
+    match dec x with
+    | some x => match Makeflags.parse x with
+      | .absent => "absent"
+      | .fds a b => "fds " ++ String.ofList a ++ " " ++ String.ofList b
+      | .invalid => "invalid"
+    | none => "bad-op"
+  | ["makeflags-format", a, b] => enc (Makeflags.format a.toList b.toList)
   | ["resolve", dirs, files, cwd, path] => PathsSemWire.respond dirs files cwd path
   | _ => "bad-op"
 
